@@ -167,6 +167,7 @@ func checkC13(c *Ctx) {
 
 	// ---- R2/R3 label, sides, sense at Compare*Values call sites
 	c.Rule("C13.R2.label", "Compare{Int,Float}Values(label, a.F, b.G, up, down): F = G = label, a from spec 1 and b from spec 2", 6)
+	c.Rule("C13.R4.ungated-bounds", "no Compare{Int,Float}Values call sits under a condition on a local flag that is raised where another difference was found", 6)
 	c.Rule("C13.R3.sense", "upper bounds: (greater, smaller) = (Widened, Narrowed); lower bounds: (Narrowed, Widened)", 6)
 	upper := map[string]bool{"Maximum": true, "MaxLength": true, "MaxItems": true, "MaxProperties": true}
 	lower := map[string]bool{"Minimum": true, "MinLength": true, "MinItems": true, "MinProperties": true}
@@ -196,6 +197,14 @@ func checkC13(c *Ctx) {
 			key := fmt.Sprintf("diff.%s › %s(%q)", cs.FnName, helper, label)
 			c.Check(label != "" && fa == label && fb == label && sa == goan.S1 && sb == goan.S2, "C13.R2.label", key, c.posOf(pk, cs.Call.Pos()),
 				"label, fields and sides agree", fmt.Sprintf("label %q but operands are side%s.%s and side%s.%s: the %s constraint is not compared (or compared against the wrong side)", label, sa, fa, sb, fb, label))
+			// the comparison of a bound does not wait for the outcome of other comparisons: a condition
+			// around it that reads a local flag raised where another difference was found hides the
+			// change of the bound whenever the other attribute changes with it
+			{
+				flag := outcomeFlagAround(info, cs.Fn, cs.Call)
+				c.Check(flag == "", "C13.R4.ungated-bounds", key, c.posOf(pk, cs.Call.Pos()), "not conditioned by a flag that other comparisons raise",
+					fmt.Sprintf("the %s comparison runs only when the local flag `%s` is still false, and the flag is raised where another difference is reported: a %s that changes together with that other attribute (maximum 100 exclusive → maximum 50) is not reported, and a narrowing passes for compatible", label, flag, label))
+			}
 			up, down := goan.ConstObj(info, cs.Call.Args[3]), goan.ConstObj(info, cs.Call.Args[4])
 			if up == nil || down == nil {
 				c.Unk("C13.R3.sense", key, c.posOf(pk, cs.Call.Pos()), "codes are not constants")
@@ -292,6 +301,7 @@ func checkC13(c *Ctx) {
 	checkMethodExhaustive(c, "C13.R9.methods", pk, 1)
 	checkSharedGuards(c, "C13.R4.shared-guards", r, bindSites(c, r, "C13.R4.shared-guards"))
 	checkMemoKey(c, "C13.R4.memo-key", r)
+	checkDifferenceExits(c, "C13.R4.difference-exits", pk)
 	c.Rule("C13.R4.location-key", "every location a shared schema is referenced from is compared: the visited-set key reads every field of the location", 4)
 	checkLocationKey(c, "C13.R4.location-key", pk)
 	// a definition is marked as referenced (hence skipped by the definitions pass) only by a
@@ -1311,5 +1321,148 @@ func checkItemsCompared(c *Ctx, rule string, pk *packages.Package) {
 	}
 	if n == 0 {
 		c.Anchor(rule, "diff › forParam / forHeader comparisons", "none found")
+	}
+}
+
+// outcomeFlagAround: the name of a local boolean variable read by a condition around the call
+// and assigned the constant true somewhere in the function ("" when there is none).
+func outcomeFlagAround(info *types.Info, fd *ast.FuncDecl, call *ast.CallExpr) string {
+	if fd == nil || fd.Body == nil {
+		return ""
+	}
+	raised := map[types.Object]bool{}
+	ast.Inspect(fd.Body, func(n ast.Node) bool {
+		as, ok := n.(*ast.AssignStmt)
+		if !ok || len(as.Lhs) != len(as.Rhs) {
+			return true
+		}
+		for i, l := range as.Lhs {
+			id, ok := l.(*ast.Ident)
+			if !ok || !goan.IsIdent(as.Rhs[i], "true") {
+				continue
+			}
+			if v, ok := info.ObjectOf(id).(*types.Var); ok && !v.IsField() && v.Pkg() != nil && v.Parent() != v.Pkg().Scope() {
+				raised[v] = true
+			}
+		}
+		return true
+	})
+	flag := ""
+	ast.Inspect(fd.Body, func(n ast.Node) bool {
+		ifs, ok := n.(*ast.IfStmt)
+		if !ok || !(ifs.Body.Pos() <= call.Pos() && call.End() <= ifs.Body.End()) {
+			return true
+		}
+		ast.Inspect(ifs.Cond, func(m ast.Node) bool {
+			if id, ok := m.(*ast.Ident); ok && raised[info.Uses[id]] {
+				flag = id.Name
+			}
+			return true
+		})
+		return true
+	})
+	return flag
+}
+
+// Returns of the analyser taken because a comparison found a difference. Each one ends the
+// comparison of everything the function has not looked at yet, so it needs a reason why nothing
+// further can be said.
+var differenceExitsReviewed = map[string]string{
+	"SpecAnalyser.compareSchema › after CheckRefChange":            "the two schemas point to different definitions: the change of reference is the difference, the definitions are compared on their own",
+	"SpecAnalyser.CompareProps › after CheckToFromPrimitiveType":   "one schema is a primitive and the other is not: no attribute of the one has a counterpart in the other",
+	"SpecAnalyser.CompareProps › after CompareIntValues(MinItems)": "both are arrays: what follows in this function (reference, primitive type, string and numeric attributes) does not apply to an array, and the items are compared by the caller",
+	"SpecAnalyser.CompareProps › after CheckRefChange":             "the two schemas point to different definitions: the change of reference is the difference",
+}
+
+// checkDifferenceExits: "a difference was found" is not a reason to stop comparing. A return
+// under `len(diffs) > 0` alone — diffs being the list a comparison just returned — leaves out
+// the attributes compared further down (items, properties) whenever an earlier one changed too.
+func checkDifferenceExits(c *Ctx, rule string, pk *packages.Package) {
+	c.Rule(rule, "no function of the analyser returns merely because a comparison reported differences (`if len(diffs) > 0 { …; return }`) while it has further comparisons to make, except at reviewed sites", 1)
+	info := pk.TypesInfo
+	isDiffList := func(t types.Type) bool {
+		sl, ok := t.Underlying().(*types.Slice)
+		if !ok {
+			return false
+		}
+		n := goan.NamedName(sl.Elem())
+		return n == "TypeDiff" || n == "SpecDifference"
+	}
+	seen := map[string]bool{}
+	for _, fd := range load.AllFuncs(pk) {
+		if fd.Body == nil {
+			continue
+		}
+		for i, st := range fd.Body.List {
+			ifs, ok := st.(*ast.IfStmt)
+			if !ok || len(ifs.Body.List) == 0 || ifs.Else != nil {
+				continue
+			}
+			if _, ok := ifs.Body.List[len(ifs.Body.List)-1].(*ast.ReturnStmt); !ok {
+				continue
+			}
+			be, ok := ast.Unparen(ifs.Cond).(*ast.BinaryExpr)
+			if !ok || be.Op != token.GTR {
+				continue
+			}
+			call, ok := ast.Unparen(be.X).(*ast.CallExpr)
+			if !ok || len(call.Args) != 1 || !goan.IsIdent(call.Fun, "len") || !isDiffList(info.TypeOf(call.Args[0])) {
+				continue
+			}
+			id, ok := ast.Unparen(call.Args[0]).(*ast.Ident)
+			if !ok {
+				continue
+			}
+			// the comparison that filled the list: the last assignment before the test
+			from := ""
+			for _, a := range goan.AssignmentsTo(info, fd.Body, info.ObjectOf(id)) {
+				if a.Rhs == nil || a.Rhs.Pos() > ifs.Pos() {
+					continue
+				}
+				if rc, ok := ast.Unparen(a.Rhs).(*ast.CallExpr); ok {
+					if fn := goan.Callee(info, rc); fn != nil {
+						from = fn.Name()
+					} else if goan.IsIdent(rc.Fun, "append") && len(rc.Args) == 2 {
+						// diffs = append(diffs, part...): the comparison that made the part
+						from = "append"
+						if pid, ok := ast.Unparen(rc.Args[1]).(*ast.Ident); ok {
+							if pe, ok := ast.Unparen(goan.ResolveLocal(info, fd.Body, pid)).(*ast.CallExpr); ok {
+								if fn := goan.Callee(info, pe); fn != nil {
+									from = fn.Name()
+									if lab, ok := goan.StringVal(info, pe.Args[0]); ok {
+										from += "(" + lab + ")"
+									}
+								}
+							}
+						}
+					}
+				}
+			}
+			// anything left to compare?
+			more := false
+			for _, later := range fd.Body.List[i+1:] {
+				ast.Inspect(later, func(n ast.Node) bool {
+					if rc, ok := n.(*ast.CallExpr); ok {
+						if fn := goan.Callee(info, rc); fn != nil && fn.Pkg() == pk.Types && (strings.HasPrefix(strings.ToLower(fn.Name()), "compare") || strings.HasPrefix(strings.ToLower(fn.Name()), "check")) {
+							more = true
+						}
+					}
+					return true
+				})
+			}
+			if !more {
+				continue
+			}
+			key := load.FuncName(fd) + " › after " + from
+			seen[key] = true
+			why, ok := differenceExitsReviewed[key]
+			c.Check(ok, rule, "diff."+key, c.posOf(pk, ifs.Pos()), "reviewed: "+why,
+				"the function returns as soon as "+from+" reports a difference, before the comparisons that follow (items, properties …): when two attributes change together only the first is reported — maxItems 5→10 hides the items' maxLength 50→5, and a narrowing passes for compatible")
+		}
+	}
+	for k := range differenceExitsReviewed {
+		if !seen[k] {
+			c.Anchor(rule, "diff."+k, "reviewed exit not found")
+		}
 	}
 }
